@@ -240,9 +240,9 @@ def check_c01(ctx):
     for i, s in enumerate(ic):
         s["mode"], s["procs"] = "free", [1, 2, 4, 16][i % 4]
         s.pop("sched", None)
-    icev, _ = core.vh_sharded(ctx, "importclosure", ic, timeout=3000)
+    icev, _ = core.vh_sharded(ctx, "importclosure", ic, timeout=3000, resilient=True)
     for e in icev:
-        if e["e"] in ("panic", "timeout"):
+        if e["e"] in ("panic", "timeout", "fatal"):
             s = [x for x in ic if x["id"] == e["t"]][0]
             core.add_violation(ctx, "C01/import-closure/%s" % e["e"], "import closure %s: %s" % (e["e"], json.dumps({k: s[k] for k in ("imports", "aliases", "fail", "maxd")})),
                                {"family": "importclosure", "scenario": s})
